@@ -136,8 +136,13 @@ pub fn verdict_sig(v: &Verdict) -> String {
     }
 }
 
+/// panic location reduced to the file (line numbers move with unrelated edits)
 pub fn strip_repo(l: &str) -> String {
-    l.trim_start_matches("/repo/").to_string()
+    let l = l.trim_start_matches("/repo/");
+    match l.rfind(':') {
+        Some(i) if l[i + 1..].chars().all(|c| c.is_ascii_digit()) => l[..i].to_string(),
+        _ => l.to_string(),
+    }
 }
 
 pub fn digits_out(s: &str) -> String {
